@@ -107,8 +107,19 @@ func c10ErrText(err error) string {
 
 func VerifHarness_C10_Load() {
 	path := verifFSRoot() + "/db/commands.yml"
-	state := verifIntRange("state", 0, 4)
+	state := verifIntRange("state", 0, 5)
 	n := 0
+	if state == 5 { // well-formed YAML of another shape than a list of command entries
+		switch verifIntRange("shape", 0, 2) {
+		case 0:
+			verifFSPutDoc(path, "yaml", map[string]string{"command": "ls"})
+		case 1:
+			verifFSPutDoc(path, "yaml", "just a sentence")
+		case 2:
+			verifFSPutDoc(path, "yaml", [][]string{{"ls", "list"}})
+		}
+		state = 2
+	}
 	if state == 4 { // no YAML document at all: the empty list, spelled as an empty or comment-only file
 		if verifBool("commentOnly") {
 			verifFSPutBytes(path, []byte("# commands go here\n"))
@@ -122,7 +133,9 @@ func VerifHarness_C10_Load() {
 	case 1:
 		verifFSMkdir(path)
 	case 2:
-		verifFSPutGarbage(path)
+		if !verifFSExists(path) {
+			verifFSPutGarbage(path)
+		}
 	case 3:
 		n = verifIntRange("entries", 0, 2)
 		var cmds []Command
